@@ -21,7 +21,7 @@ static const char *nx_config_name(void);
 
 #define NX_MAXDEPTH 24
 struct nx_shared {
-	long states, transitions, leaves, pruned, viols, exits, twins, distinct, hangs, crashes, traces, cut;
+	long states, transitions, leaves, pruned, viols, exits, twins, distinct, hangs, crashes, traces, cut, samples;
 	long hist[16];
 	unsigned long long *table;
 	long tabcap;
@@ -38,6 +38,7 @@ static int nx_shard_level = 1;		/* operations leaving states of this depth are s
 static int nx_horizon = 20;		/* seconds an operation may take */
 static char nx_errpath[512];
 static const char *nx_viol_slug = "explore";
+static char nx_cfg_args[128];		/* what to pass as cfg=... (and core=/red=) to re-run this configuration */
 static int nx_trace_every;		/* emit every n-th leaf as a TRACE line for conformance replay */
 static void (*nx_pre_state)(void);	/* model update at a choice point, run before state matching and before nx_at_state() */
 static void (*nx_op_effect)(int k);	/* harness-side effect of operation k (outside-world events), before its bytes are fed */
@@ -76,7 +77,7 @@ static void nx_viol(const char *slug, const char *fmt, ...)
 	va_start(ap, fmt);
 	vsnprintf(msg, sizeof(msg), fmt, ap);
 	va_end(ap);
-	n = snprintf(line, sizeof(line), "VIOL %s\tkind=history config=%s ops=%s history=[%s] %s\n", slug, nx_config_name(), ids, hist, msg);
+	n = snprintf(line, sizeof(line), "VIOL %s\tkind=history config=%s ops=%s args=\"%s ops=%s\" history=[%s] %s\n", slug, nx_config_name(), ids, nx_cfg_args, ids, hist, msg);
 	fflush(nv_out);
 	if (__real_write(fileno(nv_out), line, n) < 0)
 		_exit(3);
@@ -92,7 +93,7 @@ static void nx_dev(const char *slug, const char *fmt, ...)
 	va_start(ap, fmt);
 	vsnprintf(msg, sizeof(msg), fmt, ap);
 	va_end(ap);
-	n = snprintf(line, sizeof(line), "DEV %s\tkind=history config=%s ops=%s history=[%s] %s\n", slug, nx_config_name(), ids, hist, msg);
+	n = snprintf(line, sizeof(line), "DEV %s\tkind=history config=%s ops=%s args=\"%s ops=%s\" history=[%s] %s\n", slug, nx_config_name(), ids, nx_cfg_args, ids, hist, msg);
 	fflush(nv_out);
 	if (__real_write(fileno(nv_out), line, n) < 0)
 		_exit(3);
@@ -363,6 +364,17 @@ static void nx_run(int argc_ed, char **argv_ed)
 			nx_at_exit();
 			if (nx_in_leaf)
 				nx_emit_trace();
+			/* a few complete histories of this run, written out, for the evidence file */
+			if (nx_in_leaf && nx_depth > 0 && __sync_fetch_and_add(&nx_sh->samples, 1) % 4099 == 7) {
+				char hist[1024], line[1400];
+				int n;
+				nx_history_str(hist, sizeof(hist));
+				n = snprintf(line, sizeof(line), "SAMPLE explored history: config=%s ops=[%s] (%d operations, then the quit sequence; every intermediate state checked)\n",
+					nx_config_name(), hist, nx_depth);
+				fflush(nv_out);
+				if (__real_write(fileno(nv_out), line, n) < 0)
+					_exit(3);
+			}
 		} else if (nx_probe_fn) {
 			nx_probe_fn();
 		}
